@@ -334,22 +334,33 @@ def doAncestors {α} (fuel : Nat) (sys : Sys) (n : String) (now : Int)
 
 def ancestorFuel (sys : Sys) : Nat := sys.length + 2
 
+/-- tag every value with the name of the location that produced it -/
+def tagged {α} (fn : String → LM α) : String → LM (String × α) :=
+  fun m => LM.bind (fn m) (fun a => LM.pure (m, a))
+
+/-- A location reached along more than one chain of parents is visited once (`done` in `doAncestors`): of the
+visits the model's walk makes, the first per location counts. (A later visit of the same location during the same
+request reads the same state at the same clock, so dropping its answer is dropping a copy.) -/
+def firstVisits {β} : List (String × β) → List String → List β
+  | [], _ => []
+  | (m, b) :: rest, seen => if seen.contains m then firstVisits rest seen else b :: firstVisits rest (m :: seen)
+
 /-- `SearchFacts(pattern, includeInherited)` -/
 def sysSearchFacts (sys : Sys) (c : Ctx) (n : String) (p : Obj) (inherited : Bool) (now : Int) :
     Sys × Except LErr (List (String × Obj × List Bs)) :=
   if inherited then
-    match doAncestors (ancestorFuel sys) sys n now (fun _ => locSearchFacts c p now) [] with
-    | (s, .ok ls) => (s, .ok ls.flatten)
+    match doAncestors (ancestorFuel sys) sys n now (tagged (fun _ => locSearchFacts c p now)) [] with
+    | (s, .ok ls) => (s, .ok (firstVisits ls []).flatten)
     | (s, .error e) => (s, .error e)
   else sys.at n (locSearchFacts c p now)
 
 /-- `searchRulesAncestors`: a rule id present twice along the walk is the duplicate-id error -/
 def sysSearchRulesAnc (sys : Sys) (c : Ctx) (n : String) (ev : Obj) (now : Int) :
     Sys × Except LErr (List (String × RuleM)) :=
-  match doAncestors (ancestorFuel sys) sys n now (fun _ => locSearchRules c ev now) [] with
+  match doAncestors (ancestorFuel sys) sys n now (tagged (fun _ => locSearchRules c ev now)) [] with
   | (s, .error e) => (s, .error e)
   | (s, .ok ls) =>
-    let all := ls.flatten
+    let all := (firstVisits ls []).flatten
     let ids := all.map (·.1)
     if ids.eraseDups.length != ids.length then (s, .error "dupId") else (s, .ok all)
 
